@@ -12,7 +12,7 @@ T = {
     "C03": ("deviation-bounded", "deviation-bounded structure-aware enumeration of correctly sealed headers (1-2 deviating fields), checksum-correct payload mutants, truncations and short files, bases of every lead length (16- to 64-byte overall digests) x API call sequences (all singles, all ordered pairs on files that open) and tools under ASan/UBSan with alarms",
             "Every sealed header with one (quick) or two (thorough) boundary-valued fields, every truncation, all byte strings of length <= 2, each driven through every public call sequence of depth <= 2 and every tool in a forked child under ASan+UBSan with a hang alarm.",
             "Only the listed boundary values and at most two deviating fields; sanitizer-visible undefined behaviour only; OOM paths excluded."),
-    "C04": ("explicit-state", "exhaustive enumeration of (old file incl. damaged ones, new file, range limit, initial target) over the word universe driving the documented update loop against a reference range server (a new multipart boundary per response), long words that need several multi-range requests, and a connection dropped after every number of body bytes of the first chunk response followed by another round on the same zckDL, the client's own header/write callbacks registered behind the library's; the real zckdl main against a loopback HTTP range server in both tiers; thorough: the real zckdl main against a loopback HTTP range server",
+    "C04": ("explicit-state", "exhaustive enumeration of (old file incl. damaged ones, new file, range limit, initial target) over the word universe driving the documented update loop against a reference range server (a new multipart boundary per response), long words that need several multi-range requests, and a connection dropped after every number of body bytes of the first chunk response followed by another round on the same zckDL, the client's own header/write callbacks registered behind the library's; the real zckdl main against a loopback HTTP range server in both tiers (also with a damaged old file), words with a one-byte chunk; thorough: the real zckdl main against a loopback HTTP range server",
             "All pairs of words up to length 3 (plus no source), compression/dictionary variants, range limits and initial target states run the documented procedure over the public API with a reference server; final bytes and the exact multiset of requested ranges are compared with set arithmetic on the reference chunk table.",
             "Words over a small block alphabet; the in-process reference server (drv/scen_update.c) and the loopback server (mc/httpd.py) are trusted; the real zckdl main is exercised only in the thorough tier."),
     "C05": ("schedule-bounded", "exhaustive enumeration of all 1-cut and 2-cut partitions of well-formed range responses into callback invocations, all missing-chunk subsets, boundary/header spellings (every RFC 2046 boundary character at start/middle/end), per-chunk corruptions incl. digest twins, the application's own callbacks chained behind the library's, fwrite-style call shapes (1,n) / (n,1) / (k,n/k), a dropped first response followed by reset and a new request, chunks above 32 KiB",
@@ -30,13 +30,13 @@ T = {
     "C09": ("explicit-state", "explicit-state exploration of on-disk states (per-chunk correct/zeroed/flipped/absent, every truncation, reference-written index entries without stored bytes, digest twins, chunks above 32 KiB incl. periodic content) x validation-call histories (incl. partial reads and chunk requests in between) on the real scanner",
             "Every on-disk state of the listed targets and every history of validate-all / validate-data / find-valid up to the depth, followed by a full read, compared with a reference recomputation from the bytes on disk.",
             "Targets of 3-4 chunks; histories up to length 3 (4 thorough)."),
-    "C10": ("explicit-state", "exhaustive enumeration of all 2^N validity markings for N<=10 (12 thorough) chunk tables x range limits, all three-valued (valid/missing/failed) markings of the smaller tables, every ordered pair of markings as two requests on one context, every table also seen through its detached header; large tables at every string-buffer phase; set arithmetic oracle",
+    "C10": ("explicit-state", "exhaustive enumeration of all 2^N validity markings for N<=10 (12 thorough) chunk tables x range limits, all three-valued (valid/missing/failed) markings of the smaller tables, every ordered pair of markings as two requests on one context, every table also seen through its detached header, index entries without stored bytes between missing chunks; large tables at every string-buffer phase; set arithmetic oracle",
             "All markings (produced through the public scan flow) of all chunk tables up to N chunks and all listed limits are given to the real range builder and renderer and compared with set arithmetic; large tables sweep every alignment across the buffer growth thresholds.",
             "N <= 10 (12) exhaustively; larger tables only in the alternating family; for failed chunks both readings (left out / requested) are accepted."),
     "C11": ("crash-point exhaustive", "explicit-state BFS over target-file states reached by killing the update at every write/ftruncate and at every byte count inside each write, resumed with fresh contexts (incl. files with the uncompressed-source flag resumed without the old file, and chunks above two scan buffers with periodic content killed around every 4 KiB step)",
             "Every kill point (every system call, every byte offset) of each update scenario is executed via the link-time seam; every reached on-disk state is resumed to completion and, to depth 2 for selected scenarios, killed again.",
             "Process kill, not power loss; scenarios are the listed small pairs."),
-    "C12": ("deviation-bounded", "deviation-bounded exploration of environment answers: every single fault (EIO/ENOSPC/EINTR/short count) at every read/write/lseek of each scenario (writer, reader, validations, chunk requests, copy, update, tools), all pairs for short scenarios",
+    "C12": ("deviation-bounded", "deviation-bounded exploration of environment answers: every single fault (EIO/ENOSPC/EINTR/short count) at every read/write/lseek of each scenario (writer, reader incl. files without a data digest, validations, chunk requests, copy, update, chunks of several buffer passes, the tools incl. unzck --header and zck -s), all pairs for short scenarios",
             "A fault-free run records N environment calls; then every call x every alternative answer is executed (all pairs thorough) through the link-time seam, and a reported success is compared with what really reached the descriptors.",
             "Faults limited to the listed errno values and short counts; at most two faults per execution."),
     "C13": ("explicit-state", "exhaustive enumeration of headers the reference writer can emit within the stated field domains (incl. running sums placed on every 2^63 / 2^64 limit) and their re-sealed field mutations, getter dump compared with the reference parser; the open repeated under every single allocation failure (allocator seam) must refuse or report the same; the zck_read_header tool under every subset of -c -q -f -v, printed fields and chunk rows against the reference parser",
@@ -48,7 +48,7 @@ T = {
     "C15": ("explicit-state", "exhaustive single-bit flips (all substitutions thorough) of every body byte x every read buffer size 1..chunk+2, and every call history (find-matching, validate, find-valid, chunk requests, pairs) before the read on every still-decompressing mutant, each also with the error cleared after a failed read (recover mode); attribution of returned bytes to chunks via the reference index",
             "Every corruption in the stated space that still decompresses is among the mutants; every read size is tried; no successful read may return a byte of a chunk whose stored bytes mismatch its digest.",
             "zstd files of three data chunks from the block alphabet."),
-    "C16": ("explicit-state", "exhaustive 1-cut and boundary-neighbourhood 2-cut write segmentations, edits at every boundary neighbourhood, rolling-hash hit windows placed at every offset around the effective minimum and maximum; a battery of refused option calls in front of the writes; byte-identity, chunk-locality and size-bound oracle",
+    "C16": ("explicit-state", "exhaustive 1-cut and boundary-neighbourhood 2-cut write segmentations, edits at every boundary neighbourhood, rolling-hash hit windows placed at every offset around the effective minimum and maximum (written whole and with the bytes around the hit one per call); a battery of refused option calls in front of the writes; byte-identity, chunk-locality and size-bound oracle",
             "The same content delivered whole, with every single cut position, every cut pair near chunk boundaries and the k-byte schedules must give byte-identical files; edits at every listed position must leave chunks before and after the edit region identical.",
             "Contents of the medium generator families; rolling-hash behaviour on other data not covered."),
     "C17": ("deviation-bounded", "deviation-bounded enumeration of malformed header lines (incl. a grammar product of the boundary parameter) and response bodies (<=2 deviations from well-formed, every truncation, all byte strings of length <=2) x fragmentations, and pairs of responses on one zckDL with every client action in between (nothing, range set again, reset, reset without range), under ASan/UBSan",
